@@ -164,6 +164,7 @@ class G:
             w = "w%d" % self.tmp
             e = self.atom()
             v = self.newloc()
+            self.has_handler = True      # __exit__ may suppress the exception: its fate is decided by comparison with CPython
             return ["%s%s = a" % (ind, v), "%swith %s as %s:" % (ind, e, w), "%s    %s = %s + %s" % (ind, v, w, E())]
         if r < 0.82 and depth > 0:
             v = self.newloc()
@@ -323,10 +324,14 @@ def is_known_f35(ms, fi, problems):
             and "acquired on lines []" in problems[0]["text"] and f35_shape(ms, fi))
 
 
+LAST_SUT = [None]
+
+
 def check_case(ms, fi, plan, pair):
     """Returns (nfallible_calls, violation or None, order_divergence flag)."""
     sut, model, ch = pair
     rs = run_case(sut, fi, plan, ch, True)
+    LAST_SUT[0] = rs
     v = None
     od = False
     if rs["problems"] and is_known_f35(ms, fi, rs["problems"]):
@@ -368,6 +373,12 @@ def one_run(check, seed, i, cfg):
     n, v, od = check_case(ms, fi, {}, pair)
     res["n"] += 1
     plans = [{str(k): True} for k in range(min(n, cfg["kmax"]))]
+    # directed pairs: a fault in the last call of a with body, then a second one in the truth test of what __exit__ returned
+    log0 = list((LAST_SUT[0] or {}).get("log") or [])
+    for j, name in enumerate(log0):
+        if name == "exit" and j >= 1 and log0[j - 1] != "enter" and j < cfg["kmax"]:
+            plans.append({str(j - 1): True, str(j + 1): True})
+            res["probes"]["directed_pair_body_fault_then_exit_result_truth_test"] = res["probes"].get("directed_pair_body_fault_then_exit_result_truth_test", 0) + 1
     if n > cfg["kmax"]:
         res["probes"]["functions_with_truncated_sweep"] = 1
     if n >= 2:
@@ -453,7 +464,7 @@ def replay(payload):
     so = build.build_ext(name, payload["src"], ".py", cflags=("-DCYTHON_REFNANNY=1",) + tuple(payload.get("cflags", ())))
     nf = payload["func"] + 1
     ms = {"name": name, "src": payload["src"], "so": so, "nfuncs": nf, "refnanny": rn,
-          "handlers": [payload.get("has_handler", "except Inj" in payload["src"])] * nf}
+          "handlers": [payload.get("has_handler", "except Inj" in payload["src"] or "    with " in payload["src"])] * nf}
     if payload.get("raw"):
         os.environ["SIMKIT_RAW_REPLAY"] = "1"
     try:
